@@ -491,6 +491,11 @@ func (w *World) Classify(op Op) (class string, ok bool) {
 		if !ok {
 			return op.K + "/" + cls, false
 		}
+		if cls == "inherited" {
+			if _, imp := w.Pkgs[c].Imp[KindOf(op.N)][op.N]; imp {
+				cls += "+via-import"
+			}
+		}
 		if cls == "own" {
 			if w.imported(t, op.N) {
 				cls += "+imported" // another package imported this definition
@@ -519,6 +524,16 @@ func (w *World) Classify(op Op) (class string, ok bool) {
 		for _, u := range op.Use {
 			if !w.Pkgs[u].Exists || u == op.P {
 				return "defpackage/invalid", false
+			}
+		}
+		for _, n := range op.Exp {
+			for _, u := range op.Use {
+				if w.Pkgs[u].Exp[n] != No {
+					return "defpackage/export-inherited", false // as export/inherited: not judged
+				}
+				if e := w.Resolve(u, n); w.inherits(u) && (0 < len(e.Must) || 0 < len(e.May)) {
+					return "defpackage/export-inherited", false
+				}
 			}
 		}
 		cls := "defpackage/bare"
